@@ -135,6 +135,11 @@ pub fn run_case(case: &Value, out: &mut Obs) {
                 "CLO" => MessageChunkType::CloseSecureChannel,
                 _ => MessageChunkType::Message,
             };
+            // MSGS: the chunk header carries a channel id this connection never issued
+            let real_ids = (cli.chan.secure_channel_id(), cli.chan.token_id());
+            if kind == "MSGS" {
+                cli.chan.set_secure_channel_id(real_ids.0 + 7);
+            }
             let chunk = if fl != "F" || in_msg {
                 let c = cli.raw(ctype, fin, !in_msg);
                 in_msg = fl == "C";
@@ -178,6 +183,7 @@ pub fn run_case(case: &Value, out: &mut Obs) {
                 };
                 cli.one_chunk(msg)
             };
+            cli.chan.set_secure_channel_id(real_ids.0);
             let chunk = match chunk {
                 Some(c) => c,
                 None => return (true, vec![], "harness-could-not-build-chunk".to_string()),
